@@ -1125,6 +1125,14 @@ class Merge3Merger:
                     this_name = this_entry.name
                     this_parent = this_entry.parent_id
                     this_executable = this_entry.executable
+                    if this_entry.kind == "file":
+                        # The inventory entry of a working tree carries the
+                        # bit recorded when its stat cache was last updated;
+                        # an uncommitted chmod is only visible on disk.
+                        try:
+                            this_executable = self.this_tree.is_executable(this_path)
+                        except (OSError, NoSuchFile):
+                            pass
                 else:
                     this_name = None
                     this_parent = None
